@@ -57,7 +57,7 @@ pub fn ideal_hash(inp: &Buf) -> [u8; 32] {
             if i < H_N && !hit && H_LEN[i] == inp.len {
                 let mut same = true;
                 let mut j = 0;
-                while j < BCAP {
+                while j < inp.len && j < BCAP {
                     if H_IN[i][j] != inp.d[j] {
                         same = false;
                     }
@@ -72,7 +72,7 @@ pub fn ideal_hash(inp: &Buf) -> [u8; 32] {
         }
         H_LEN[H_N] = inp.len;
         let mut j = 0;
-        while j < BCAP {
+        while j < inp.len && j < BCAP {
             H_IN[H_N][j] = inp.d[j];
             j += 1;
         }
